@@ -218,6 +218,8 @@ func init() {
 				}
 			}
 		}
+		cfgBoolSpellings(c, "C15", map[string]func(*options.Options) bool{"skip-auth-preflight": func(o *options.Options) bool { return o.SkipAuthPreflight },
+			"reverse-proxy": func(o *options.Options) bool { return o.ReverseProxy }})
 		c.close([]string{"decision:bypass", "decision:auth", "query:nonempty", "mode:rp-fwd", "cfg:ok"})
 	})
 }
